@@ -1508,6 +1508,51 @@ def ref_multi_ali(rng, i):
     return {"name": "ref-multi-%s-%d" % (tool, i), "ref": True, "sticky": 1, "ops": [op_file("in.sto", text), op_run(tool, args + ["in.sto"])]}
 
 
+def ref_alimask_pp(rng, i):
+    """esl-alimask -p [-g]: masks from #=GR PP lines (fraction of sequences at or above --pthresh, average PP --pavg, #=GC PP_cons with
+    --ppcons), all-gap columns (--pallgapok), with / without RF (--keepins), -o + verbose table, --pmask-rf/--pmask-all/--fmask-* files;
+    a second alignment behind the first is ignored by the tool"""
+    abc = rng.choice(["ACGU", DNA, AMINO])
+    rows, _ = wide_rows(rng, abc=abc, nseq=rng.choice([1, 2, 3, 5, 8]), alen=rng.choice([5, 20, 61, 130, 205]), gaps=rng.choice(["-", "-.", "-."]))
+    alen = len(rows[0][1])
+    if rng.random() < 0.3:      # a column of gaps only
+        k = rng.randrange(alen); rows = [(n, s_[:k] + "-" + s_[k + 1:]) for n, s_ in rows]
+    hi = rng.random() < 0.5
+    grpp = {k: "".join("." if c in "-._~" else rng.choice("9*****98" if hi else "0123456789*") for c in s_) for k, (n, s_) in enumerate(rows)}
+    rf = None
+    if rng.random() < 0.5:
+        rf = "".join(rng.choice("xxxX") if rng.random() < 0.7 else "." for _ in range(alen))
+        if all(c == "." for c in rf): rf = "x" + rf[1:]
+    text = sto_text_blocks(rows, rng.choice([alen, 200, 50]), rf=rf, grpp=grpp, ident=rng.choice([None, "aln1"]),
+                           sscons=(balanced_ss(rng, alen) if rng.random() < 0.3 else None))
+    args = ["-p"]
+    w = rng.random()
+    if w < 0.25: args += ["--pavg", rng.choice(["0.5", "0.9", "0.95", "0.3", "0.0", "1.0"])]
+    elif w < 0.45:
+        ppc = "".join(rng.choice("0123456789*") if any(s_[c] not in "-._~" for _, s_ in rows) else "." for c in range(alen))
+        text = text.replace("//\n", "#=GC PP_cons   " + ppc + "\n//\n") if len(text.split("\n\n")) <= 3 else text
+        if "#=GC PP_cons" in text: args += ["--ppcons", rng.choice(["0.5", "0.95", "0.85", "0.3", "0.0"])]
+    else:
+        if rng.random() < 0.6: args += ["--pthresh", rng.choice(["0.95", "0.9", "0.85", "0.5", "0.05", "0.0", "1.0", "0.3"])]
+        if rng.random() < 0.6: args += ["--pfract", rng.choice(["0.95", "0.5", "1.0", "0.0", "0.7"])]
+    if rng.random() < 0.3: args.append("--pallgapok")
+    if rng.random() < 0.3: args += ["-g"] + (["--gapthresh", rng.choice(["0.5", "0.2", "0.9"])] if rng.random() < 0.5 else [])
+    if rf and "--ppcons" not in args and rng.random() < 0.3: args.append("--keepins")
+    cats = []
+    if rng.random() < 0.5:
+        args += ["-o", "out.ali"]; cats.append("cat name=out.ali")
+        if rng.random() < 0.2: args.append("-q")
+    for opt, f, need_rf in (("--pmask-all", "pa.out", False), ("--pmask-rf", "pr.out", True), ("--fmask-all", "fa.out", False), ("--fmask-rf", "fr.out", True)):
+        if (rf or not need_rf) and rng.random() < 0.3:
+            args += [opt, f]; cats.append("cat name=" + f)
+    if rng.random() < 0.3: text += more_alignments(rng, abc, n=1)
+    args += [ABCFLAG[abc], "--informat", "stockholm"]
+    if rng.random() < 0.25: args += ["--outformat", rng.choice(["pfam", "afa", "clustal", "stockholm"])]
+    # every sequence filtered away / a broken base pair in a kept column is a legitimate refusal
+    return {"name": "ref-alimaskpp-%d" % i, "ref": True, "sticky": 1, "may_fail": True, "nopred_ok": True,
+            "ops": [op_file("in.sto", text), op_run("esl-alimask", args + ["in.sto"])] + cats}
+
+
 def ref_weight(rng, i):
     rows, abc = ref_msa_rows(rng)
     if rng.random() < 0.15:
@@ -2212,7 +2257,7 @@ def sweep_cases(ctx):
     return out
 
 
-REF_GENERATORS = [("multi-alignment files", ref_multi_ali), ("esl-compstruct", ref_compstruct), ("esl-alistat exact", ref_alistat_exact), ("esl-afetch exact", ref_afetch_exact), ("esl-reformat msa->fasta", ref_reformat_msa2fasta), ("esl-reformat hmmpgmd", ref_hmmpgmd), ("esl-sfetch afa", ref_sfetch_afa), ("esl-alistat info", ref_alistat_info), ("small modes", ref_small), ("esl-afetch -f", ref_afetch_multi), ("esl-alimask", ref_alimask), ("esl-alimanip", ref_alimanip), ("easel index", ref_index), ("easel filter", ref_filter), ("esl-weight", ref_weight), ("esl-afetch", ref_afetch), ("roundtrip", ref_roundtrip), ("esl-alistat", ref_alistat), ("esl-translate", ref_translate), ("esl-sfetch", ref_sfetch), ("esl-seqstat", ref_seqstat), ("esl-alirev", ref_alirev), ("esl-alipid", ref_alipid),
+REF_GENERATORS = [("esl-alimask -p", ref_alimask_pp), ("multi-alignment files", ref_multi_ali), ("esl-compstruct", ref_compstruct), ("esl-alistat exact", ref_alistat_exact), ("esl-afetch exact", ref_afetch_exact), ("esl-reformat msa->fasta", ref_reformat_msa2fasta), ("esl-reformat hmmpgmd", ref_hmmpgmd), ("esl-sfetch afa", ref_sfetch_afa), ("esl-alistat info", ref_alistat_info), ("small modes", ref_small), ("esl-afetch -f", ref_afetch_multi), ("esl-alimask", ref_alimask), ("esl-alimanip", ref_alimanip), ("easel index", ref_index), ("easel filter", ref_filter), ("esl-weight", ref_weight), ("esl-afetch", ref_afetch), ("roundtrip", ref_roundtrip), ("esl-alistat", ref_alistat), ("esl-translate", ref_translate), ("esl-sfetch", ref_sfetch), ("esl-seqstat", ref_seqstat), ("esl-alirev", ref_alirev), ("esl-alipid", ref_alipid),
                   ("esl-seqrange", ref_seqrange), ("esl-selectn", ref_selectn), ("esl-mask", ref_mask),
                   ("esl-reformat", ref_reformat), ("esl-shuffle", ref_shuffle), ("easel downsample", ref_downsample)]
 
@@ -2291,6 +2336,18 @@ def corpus_cases(ctx):
         {"name": "corpus-translate-short", "ref": True, "sticky": 1,
          "ops": [op_file("in.fa", ">a\nCC\n>b a desc\nATTG\n"), op_run("esl-translate", ["-l", "0", "-m", "--crick", "--informat", "fasta", "in.fa"])]},
     ]
+    # esl-alimask -p: a #=GR PP character outside 0-9 * gap indexed pp_ct[apos][-1] (found in round 4 while modelling -p; repaired in 2ee6f53):
+    # must be refused with a message
+    out.append({"name": "corpus-regress-2ee6f53-alimask-p-bad-ppchar", "expect_err": True,
+                "ops": [op_file("pp.sto", "# STOCKHOLM 1.0\ns1         ACGU\n#=GR s1 PP 9x8*\ns2         AC-U\n#=GR s2 PP 99.*\n//\n"),
+                        op_run("esl-alimask", ["-p", "--rna", "pp.sto"])]})
+    # the text-mode Clustal writer on an alignment with ZERO columns: "zero malloc disallowed" (round 4; known finding until the proposed patch
+    # C13-clustal-write-zero-columns lands)
+    out.append({"name": "corpus-clustal-zero-columns-alimask",
+                "ops": [op_file("a.sto", "# STOCKHOLM 1.0\ns1 AC-U\ns2 -CGU\n//\n"), op_file("m0", "0000\n"),
+                        op_run("esl-alimask", ["--rna", "--outformat", "clustal", "a.sto", "m0"])]})
+    out.append({"name": "corpus-clustal-zero-columns-reformat",
+                "ops": [op_file("g.sto", "# STOCKHOLM 1.0\ns1 A--U\ns2 -CG-\n//\n"), op_run("esl-reformat", ["--nogap", "clustal", "g.sto"])]})
     for nm, commit, ops in RETIRED_WITNESSES:
         out.append({"name": "corpus-regress-%s-%s" % (commit, nm), "ops": list(ops)})
     # invalid arguments on valid files: a non-zero exit status with a diagnostic is REQUIRED (a tool that silently
